@@ -993,6 +993,9 @@ class Lib:
         return None
 
     def binop_ext(self, interp, op, a, b, node):
+        if (isinstance(a, SOpaque) and a.tag == "unpacked" and isinstance(b, SCALAR)) or \
+                (isinstance(b, SOpaque) and b.tag == "unpacked" and isinstance(a, SCALAR)):
+            return a if isinstance(a, SOpaque) else b
         ca = isinstance(a, SObj) and a.cls == "complex"
         cb = isinstance(b, SObj) and b.cls == "complex"
         if (ca or cb) and op in ("+", "-", "*", "/") and (ca or isinstance(a, SCALAR)) and (cb or isinstance(b, SCALAR)):
@@ -1481,6 +1484,8 @@ class Lib:
         interp.err(node, "abs(%r)" % (x,))
 
     def unary_ext(self, interp, name, x, node):
+        if isinstance(x, SOpaque) and x.tag == "unpacked":
+            return x       # elementwise function of unpacked numbers: content not modelled (record accounting only)
         if name == "abs" and isinstance(x, SOpaque) and x.tag == "rfft" and x.payload[2] == 1:
             return SOpaque("rfft", (x.payload[0], x.payload[1], "abs"))
         return NotImplemented
@@ -1873,6 +1878,8 @@ class Lib:
 
     def f_np__asarray(self, interp, args, kwargs, node):
         x = args[0]
+        if isinstance(x, SOpaque) and x.tag == "unpacked":
+            return x
         if isinstance(x, (SSeq, CList)) and x.kind == "ndarray":
             return x
         return self.f_np__array(interp, args, kwargs, node)
@@ -1935,6 +1942,8 @@ class Lib:
 
     def f_np__mean(self, interp, args, kwargs, node):
         x = args[0]
+        if isinstance(x, SOpaque) and x.tag == "unpacked":
+            return SReal(z3.Real(fresh("mean_of_unpacked")))
         n = Len(x)
         s = self.f_sum(interp, [x], {}, node)
         if isinstance(n, int) and n == 0:
